@@ -753,6 +753,16 @@ fn blocks_message(blocks: impl IntoIterator<Item = (Cid, Vec<u8>)>) -> Option<(B
     (count > 0).then(|| (message.encode_to_vec().into(), count))
 }
 
+/// Upper bound for the encoding overhead of one block in a blocks message (field tags, length
+/// prefixes and the CID prefix).
+const MAX_BLOCK_OVERHEAD: usize = 48;
+
+/// Maximum number of blocks in one batch. Batches are sized by block data only, so without this
+/// bound a batch of very many tiny blocks would encode into a message exceeding
+/// [`config::MAX_MESSAGE_SIZE`] and be dropped as a whole.
+const MAX_BLOCKS_PER_BATCH: usize =
+    (config::MAX_MESSAGE_SIZE - config::MAX_BATCH_SIZE) / MAX_BLOCK_OVERHEAD;
+
 /// Extract a batch of blocks of no more than `max_size` from `blocks`.
 /// Returns `None` if no more blocks are left.
 fn extract_next_batch<'a>(
@@ -783,7 +793,7 @@ fn extract_next_batch<'a>(
 
     for b in blocks.iter() {
         let next_block_size = b.1.len();
-        if total_size + next_block_size > max_batch_size {
+        if total_size + next_block_size > max_batch_size || block_count == MAX_BLOCKS_PER_BATCH {
             break;
         }
         total_size += next_block_size;
